@@ -91,6 +91,13 @@ CHECKS = {
             'bg(t0+(k+D-d_i)/sr); with seeded noise each observation segment must equal a same-seed twin read in one request.',
             'request sizes exceed the largest delay; sinusoid tolerance 64 ulp of the phase; twin relation is against the same code',
             'DESIGN.md 3/C15'),
+    'C02': ('exploration',
+            'differential testing of recorded bytes against an independent from-first-principles pipeline fed by a same-seed one-request twin; partition metamorphic relation (byte identity over num_subblocks x blocks_per_file)',
+            'Generated backend configurations are recorded under up to 8 computation/file partitions (incl. non-dividing and over-large '
+            'num_subblocks); concatenated payloads, parsed by an independent GUPPI reader, must be byte-identical across partitions and equal, '
+            'sample for sample, to an independent digitiser -> FIR+DFT -> channel selection -> requantiser -> packing reference.',
+            'quantiser statistics from a common prefix (stats_calc_period=-1); source chunk-invariance is C10/C15; rounding-tie window 1e-6 (+-1 allowed, counted)',
+            'DESIGN.md 3/C02'),
 }
 
 ALL = [f'C{i:02d}' for i in range(1, 21)]
